@@ -10,6 +10,7 @@ import (
 	"time"
 
 	"mellium.im/xmpp"
+	"mellium.im/xmpp/component"
 	"mellium.im/xmpp/jid"
 	"mellium.im/xmpp/websocket"
 	"verif.sim/simrt"
@@ -49,6 +50,7 @@ type E2Opts struct {
 	Recv  bool // the session under test is the receiving entity (ReceiveSession); the scripted peer initiates (TCP framing only)
 	Plain bool // transport without deadlines (plain io.ReadWriter)
 	Chunk bool // short reads on both ends
+	Comp  bool // component protocol (XEP-0114): the session is established with component.NewSession, content namespace jabber:component:accept
 }
 
 const nsStream = "http://etherx.jabber.org/streams"
@@ -74,6 +76,11 @@ func (rc *RC) NewE2(o E2Opts) *E2 {
 		e.Local = jid.MustParse("a.example")
 		e.Remote = jid.MustParse("b.example")
 	}
+	if o.Comp {
+		e.NS = component.NSAccept
+		e.Local = jid.MustParse("comp.example.net")
+		e.Remote = jid.MustParse("comp.example.net")
+	}
 	if o.Recv && !o.S2S {
 		e.Local, e.Remote = jid.MustParse("example.net"), jid.MustParse("me@example.net/peer")
 	}
@@ -97,6 +104,10 @@ func (rc *RC) NewE2(o E2Opts) *E2 {
 			e.Sess, e.EstErr = xmpp.ReceiveSession(e.Ctx, rw, state, neg)
 			return
 		}
+		if o.Comp {
+			e.Sess, e.EstErr = component.NewSession(e.Ctx, e.Local, []byte("secret"), rw)
+			return
+		}
 		e.Sess, e.EstErr = xmpp.NewSession(e.Ctx, e.Remote, e.Local, rw, state, neg)
 	})
 	peerT := rc.Spawn("peer-establish", func() {
@@ -115,6 +126,13 @@ func (rc *RC) NewE2(o E2Opts) *E2 {
 			simrt.WaitUntil("peer:fin-ok", func() bool {
 				return bytes.Contains(e.SUT.Out().Tap, []byte("fin-ok")) && bytes.HasSuffix(e.SUT.Out().Tap, []byte(">"))
 			})
+			return
+		}
+		if o.Comp {
+			simrt.WaitUntil("peer:header", func() bool { return bytes.Contains(e.SUT.Out().Tap, []byte("to='comp.example.net'>")) })
+			fmt.Fprintf(e.Peer, `<?xml version='1.0'?><stream:stream xmlns='%s' xmlns:stream='%s' from='comp.example.net' id='sid42'>`, e.NS, nsStream)
+			simrt.WaitUntil("peer:handshake", func() bool { return bytes.Contains(e.SUT.Out().Tap, []byte("</handshake>")) })
+			io.WriteString(e.Peer, `<handshake/>`)
 			return
 		}
 		if o.WS {
@@ -139,6 +157,8 @@ func (rc *RC) NewE2(o E2Opts) *E2 {
 	e.PeerEstLen = len(pt)
 	if o.Recv {
 		e.PeerHeader = append([]byte(nil), pt...)
+	} else if o.Comp {
+		e.PeerHeader = append([]byte(nil), pt[:bytes.Index(pt, []byte("<handshake/>"))]...)
 	} else if !o.WS {
 		e.PeerHeader = append([]byte(nil), pt[:bytes.Index(pt, []byte("<stream:features/>"))]...)
 	}
